@@ -14,21 +14,23 @@ from harness import c20_util as U
 from translate import c20_formats as T
 from translate import c20_keytables as KT
 from translate import c20_quant as TQ
+from translate import c20_vmtblocks as TV
 
 MANIFEST = dict(
     technique='Rocq proof (byte-level codec round trips: Hammer command sequences, the scenes.image container driven by a configuration '
               'regenerated from choreo.py incl. string-pool construction and sort site, binary choreo scenes as layouts with a round-trip '
-              'theorem for every layout; quoted-field lexing for the text writers; field splitting of SMD lines; the scene summary) + seven '
+              'theorem for every layout; quoted-field lexing for the text writers; field splitting of SMD lines; the scene summary) + eight '
               'fail-closed ast translators (struct formats with the value each field carries on both sides, sort and version sites, line / '
               'field templates, operator-stack census with the version-2 test of Sound.export, the VMT quoting decision table and file '
               'frame, width paths of every binary writer/reader pair; all normalise before matching: struct spellings, helper functions, '
               'early returns, locals; round 4: the keyed tables of the writers -- dict / set / find_or_insert / DeferredWrites keys, '
               'for an object key the attributes its class compares in __eq__ / __ne__ / __hash__ -- with the key each reader stores its '
-              'result under, and the quantisation sites of binary scenes) + vm_compute correspondence on ten models (two exhaustive on a '
+              'result under, and the quantisation sites of binary scenes; round 5: the recursion of vmt._write_block with its three templates '
+              'and the blocks / Proxies part of Material.export) + vm_compute correspondence on eleven models (two exhaustive on a '
               'small scope; the quantisation model runs on the kernel\'s binary64 floats) + round-trip / second-generation / '
               'observer-effect oracle search on all eight writers with names that collide under casefold / strip, repeated names and '
               'deep-copied values; every call into the implementation under a time limit',
-    text='Theorems in Props/C20.v (76): cmdseq.parse(cmdseq.write(v)) = v and byte-identical second generation for every configuration '
+    text='Theorems in Props/C20.v (85): cmdseq.parse(cmdseq.write(v)) = v and byte-identical second generation for every configuration '
          'satisfying the obligations regenerated from cmdseq.py; the scenes.image writer over the configuration regenerated from choreo.py '
          'produces the bytes of the container model for both input forms whatever the dict keys are, parses back (header, pool through '
          'the offset table, CRC-sorted table, v2/v3 summaries, blobs; LZMA as a hypothesis pair), its table is sorted by the stored '
@@ -59,6 +61,15 @@ MANIFEST = dict(
          'line-by-line reader as exactly the (name, parent name) records of the bones, each once, whatever the dict order; every stored '
          'value of a quantised binary-scene field (all 256 byte values for factor 255, all 65536 values for absolute tags) is read as a '
          'float that min(MAX, max(0, round(v * FACTOR))) writes back as the same field, in IEEE binary64 as evaluated by the kernel. '
+         'Round 5: VMT sub-blocks and proxies -- for every block configuration passing the two booleans discharged for the templates '
+         'regenerated from vmt._write_block / Material.export, the whole file of a material with parameters, nested sub-blocks and proxies '
+         'is lexed without error to shader / { / the pairs / the canonical tokens of every block tree / the Proxies frame / }, and a '
+         'recursive-descent reader of those tokens returns exactly the trees (so the tokens determine the blocks); c20_property: ONE '
+         'statement whose only hypothesis is the boolean `premises` of the record of ALL regenerated objects (discharged on every run for '
+         'the objects of that run, including the enumeration of every stored value of every quantisation site), concluding the round trips '
+         'of cmdseq, scenes.image (incl. the pool the writer builds, sorted table, independence of caller order), binary layouts and '
+         'quantised fields, soundscript stacks (incl. independence of lazy reads), the SMD nodes section and every SMD line, VMT files '
+         'with blocks, and every structured line of the soundscript and choreo text writers. '
          'cmdseq, scenes.image (container, pool+sort), binary scene layout, SMD bone numbering, tag quantisation, scene summary, soundscript stacks (all 128 small states x '
          'histories of lazy reads) and VMT quoting (all strings of length <= 2 over 25 characters, parameter lines, whole files) models '
          'are compared with the implementation byte for byte / value for value on every run. All eight writers are searched: generated values inside each format\'s alphabet, '
@@ -67,13 +78,17 @@ MANIFEST = dict(
     note='Partial: proof level for cmdseq (complete), the scenes.image container with pool and sort, binary scenes at raw-field level '
          '(the float32 / byte quantisation of values and the Python objects behind the raw fields are outside the model), quoted fields of '
          'the text writers at tokenizer level, soundscript operator stacks at the level of which blocks exist with which children, VMT '
-         'files of parameter-only materials at token level (quoted strings without backslash; blocks / proxies and what Material.parse '
-         'builds from the tokens are searched), SMD data lines at word level and the nodes section as a whole (skeleton / triangle '
+         'files incl. sub-blocks and proxies at token level (quoted strings without backslash; what Material.parse '
+         'builds from the tokens is searched), SMD data lines at word level and the nodes section as a whole (skeleton / triangle '
          'sections refer to bones through the same table; their numeric text is searched), quantised fields on stored values (other '
-         'values: correspondence); soundscript / PCF / choreo text whole-file round trips are decided by search only. Trusted: Coq kernel + vm_compute (incl. its primitive binary64 floats), translate/c20_formats.py, c20_keytables.py, c20_quant.py, hand models Fmt/SmdNumber.v, Fmt/ChoreoQuant.v, '
+         'values: correspondence); soundscript / PCF / choreo text whole-file round trips are decided by search only. Trusted: Coq kernel + vm_compute (incl. its primitive binary64 floats), translate/c20_formats.py, c20_keytables.py, c20_quant.py, c20_vmtblocks.py, hand models Fmt/SmdNumber.v, Fmt/ChoreoQuant.v, Fmt/VmtBlocks.v, '
          'Fmt/CmdSeq.v, Fmt/ScenesImage.v, Fmt/ChoreoBin.v layouts, Fmt/SceneSummary.v, Fmt/SndStacks.v, Fmt/VmtQuote.v (each tied by differential runs; the layouts also by '
          'kernel-checked path equality with the generated paths), the tokenizer model KV/KvLex.v of C01, CPython struct/lzma/zlib.crc32. '
-         'No known finding left: round 4 repaired the text writer of the flexanimations block (never closed) and implemented its reader.',
+         'Known finding (kept): Scene.parse_text raises NotImplementedError on the flexanimations block Event.export_text writes (a reader for '
+         'it is a feature, not a small repair; round 4 repaired the writer, which never closed the block). Text scenes with flex tracks are '
+         'still checked on the writer side: the check has its own reader for the block (written from the grammar the writer emits) and '
+         'compares it with the tracks of the event, the rest of the file must be token for token the file of the scene without tracks, '
+         'and that scene goes through the ordinary round trip.',
 )
 
 IMP_CS = ['Coq.Lists.List', 'Coq.NArith.NArith', 'Coq.ZArith.ZArith', 'Coq.Bool.Bool', 'SV.Fmt.CmdSeq', 'SV.Gen.CmdSeqFmt_gen']
@@ -148,7 +163,7 @@ def tie_families(tie: str) -> set[str]:
                      ('ScenesImg_gen', ('scenes-image',)), ('scene summary', ('scenes-image',)), ('soundscript', ('sndscript',)),
                      ('VMT', ('vmt',)), ('binary choreo', ('vcd-binary',)), ('ChoreoBin_gen', ('vcd-binary',)),
                      ('TextFields_gen', ('sndscript', 'vmt', 'vcd-text')),
-                     ('KeyTables_gen', ('smd', 'pcf', 'scenes-image', 'cmdseq')), ('QuantSites_gen', ('vcd-binary',)),
+                     ('KeyTables_gen', ('smd', 'pcf', 'scenes-image', 'cmdseq')), ('QuantSites_gen', ('vcd-binary',)), ('VmtBlocks_gen', ('vmt',)),
                      ('quantisation', ('vcd-binary',))):
         if word in tie:
             fams.update(fs)
@@ -973,6 +988,55 @@ def corr_vmt_quote(ck: Ck) -> None:
             {'shader': fcases[b3[0]][0], 'params': fcases[b3[0]][1], 'impl_file': fcases[b3[0]][2]}
 
 
+def corr_vmt_blocks(ck: Ck):
+    """`VmtBlocks.vmt_file_b` over the generated block configuration and quoting table vs the whole file Material.export writes, for
+    generated materials WITH sub-blocks and proxies (nested blocks, empty blocks, names and values with spaces / braces / backslashes)."""
+    cases = []
+    for _ in range(bud(ck, ('vmt',), 40, 400)):
+        spec = U.vmt_gen(ck.rng)
+        if not (spec['blocks'] or spec['proxies']) and ck.rng.random() < 0.7:
+            spec['blocks'] = [{'name': U.rstr(ck.rng, U.VMT_ALPHA, 1, 6), 'value': [U._kv_gen(ck.rng, 2, U.VMT_ALPHA, U.VMT_ALPHA) for _k in range(ck.rng.choice([0, 1, 3]))]}]
+        try:
+            m = U.limited(U.vmt_build, spec)
+            params = [(v.name, v.value) for v in m._params.values()]
+            text = U.limited(U.vmt_write, m)
+        except Exception:
+            params, text = [tuple(x) for x in spec['params']], None
+        cases.append((spec, params, text))
+        ck.count('vmt_block_file_cases')
+
+        def depth(b) -> int:
+            return 1 + max([depth(c) for c in b['value']], default=0) if isinstance(b['value'], list) else 0
+        ck.hist('vmt_block_files', f"blocks={min(len(spec['blocks']), 2)} proxies={min(len(spec['proxies']), 2)} depth={max([depth(b) for b in spec['blocks'] + spec['proxies']], default=0)}")
+        if text is not None and (spec['blocks'] or spec['proxies']):
+            ck.seen(('vmtblocks', json.dumps(spec, sort_keys=True)))
+
+    def cs(t: str) -> str:
+        return nl(map(ord, t))
+
+    def tree(b: dict) -> str:
+        if isinstance(b['value'], list):
+            return f"(KNode {cs(b['name'])} {coq_list(tree(c) for c in b['value'])})"
+        return f"(KLeaf {cs(b['name'])} {cs(b['value'])})"
+    e = ('bad_idx (fun c : ((list N * list (list N * list N)) * (list kvt * list kvt)) * option (list N) => onl_eqb (Some (vmt_file_b TextFieldsProofs.ex_escfg '
+         'vmt_bcfg vmt_nq (fst (fst (fst c))) (snd (fst (fst c))) (fst (snd (fst c))) (snd (snd (fst c))))) (snd c)) 0 ' + coq_list(
+             f'((({cs(sp["shader"] or "s")}, {coq_list(f"({cs(a)}, {cs(b)})" for a, b in ps)}), ({coq_list(tree(b) for b in sp["blocks"])}, '
+             f'{coq_list(tree(b) for b in sp["proxies"])})), {"None" if tx is None else "Some " + cs(tx)})' for sp, ps, tx in cases))
+    [vals] = yield [(IMP_TXT + ['SV.Fmt.TextFieldsProofs', 'SV.Fmt.VmtBlocks', 'SV.Gen.VmtBlocks_gen'], [e], 'vmtblocks', PRE)]
+    if vals is None:
+        ck.obligation('correspondence:vmt-blocks', False, 'model could not be evaluated')
+        ck.tie_broken.append('correspondence VMT blocks: model evaluation failed')
+        return
+    bad = parse_coq_N_list(vals[0])
+    ck.obligation('correspondence:vmt-blocks', not bad,
+                  f'{len(cases)} generated materials with parameters, nested sub-blocks and proxies: VmtBlocks.vmt_file_b over the generated '
+                  f'block templates / indents and quoting table vs the whole file Material.export writes: {len(bad)} disagreements')
+    if bad:
+        ck.tie_broken.append('correspondence VMT blocks (Fmt/VmtBlocks.v over Gen/VmtBlocks_gen.v vs Material.export)')
+        sp, ps, tx = cases[bad[0]]
+        ck.extra['vmt_blocks_disagreement'] = {'spec': sp, 'impl_file': tx}
+
+
 # ================================================================================================ binary choreo correspondence
 
 def _f32bits(x: float) -> int:
@@ -1462,6 +1526,7 @@ def search_format(ck: Ck, name: str, n: int) -> None:
     found: dict[str, tuple] = {}
     shrinks = 0
     hung = 0
+    flex_known_reported = False
     for i in range(n):
         spec = fmt.gen(ck.rng)
         ck.count(f'roundtrip_{name}')
@@ -1482,6 +1547,29 @@ def search_format(ck: Ck, name: str, n: int) -> None:
                         return q is not None and (q[0], q[1]) == kind
                     small = U.shrink_spec(spec, unbalanced, budget=150)
                     found[key] = ((bb[0], bb[1]), small, U.brace_balance(fmt, small) or bb)
+        if name == 'vcd-text' and res is not None and (res[0], res[1]) == ('read-error', 'NotImplementedError') and U.has_flex(spec):
+            # the known finding (no reader for the flexanimations block).  What CAN be checked of such a scene still is: the blocks of
+            # the written file against the check's own reader, the rest of the file against the file of the scene without flex
+            # tracks, and that scene through the ordinary round trip (it replaces the spec below, except for the first one, which is
+            # shrunk and reported as the known finding)
+            ck.count('vcd_text_flex_scenes_checked_through_the_block_oracle_and_without_their_tracks')
+            fo = U.flex_oracle(fmt, spec)
+            ck.hist('oracle_vcd-text_flex_block', 'ok' if fo is None else fo[1])
+            if fo is not None:
+                key = f'{name}:{fo[0]}:{fo[1]}:block-as-written'
+                if key not in found and shrinks < 12:
+                    shrinks += 1
+
+                    def flex_fails(sp, kind=(fo[0], fo[1])):
+                        q = U.flex_oracle(fmt, sp) if U.has_flex(sp) else None
+                        return q is not None and (q[0], q[1]) == kind
+                    small = U.shrink_spec(spec, flex_fails, budget=150)
+                    found[key] = ((fo[0], fo[1]), small, U.flex_oracle(fmt, small) or fo)
+            if flex_known_reported:
+                spec = U.strip_flex(spec)
+                res = U.roundtrip(fmt, spec)
+                ck.hist('oracle_vcd-text_without_flex_tracks', 'ok' if res is None else res[0])
+            flex_known_reported = True
         if res is None or res[0] == 'build-error':
             if res is not None:
                 ck.count('generator_rejected_by_constructor')
@@ -1516,7 +1604,7 @@ def search_format(ck: Ck, name: str, n: int) -> None:
     for key, (_, small, r2) in found.items():
         ck.violation(key, f'{name}: {r2[0]} ({r2[1]}): write -> read -> compare -> write again fails on a representable value',
                      {'format': name, 'spec': small, 'result': [r2[0], r2[1], r2[2]],
-                      'how': f'harness.c20_util.roundtrip(FORMATS[{name!r}], spec)'})
+                      'how': f'harness.c20_util.{"flex_oracle" if r2[0] == "flex-block" else "brace_balance" if r2[0] == "unbalanced-braces" else "roundtrip"}(FORMATS[{name!r}], spec)'})
 
 
 OBSERVER_QUICK = {'cmdseq': 40, 'smd': 80, 'sndscript': 300, 'vmt': 150, 'pcf': 30, 'vcd-text': 50, 'vcd-binary': 50, 'scenes-image': 5}
@@ -1732,7 +1820,9 @@ def run(ck: Ck) -> None:
                'strings used in the spec and re-uses them or derives variants that collide under casefold / strip (only blanks where the '
                'format itself ignores case), a quarter of the SMD meshes are deep copies (equal but not identical Bone objects); skeleton '
                'cases (children first, cycles, copies, foreign parents, several objects of one name) count when they have two bones, '
-               'quantisation cases are distinct by (class, value)')
+               'quantisation cases are distinct by (class, value); VMT block cases are whole materials, distinct by spec, counted when they '
+               'have a sub-block or proxy; a text scene with flex tracks (the reader raises NotImplementedError: known finding) is checked by '
+               'the block oracle and once more without its tracks')
     ck.trusted.append('hand-written models Fmt/CmdSeq.v, Fmt/ScenesImage.v, Fmt/ScenesImageCfg.v (writer over the generated configuration), '
                       'Fmt/ChoreoBin.v (layouts), Fmt/SceneSummary.v: tied by byte-exact / value-exact differential correspondence on every run; '
                       'the layouts additionally by kernel-checked equality of their width paths with the paths regenerated from choreo.py')
@@ -1743,6 +1833,13 @@ def run(ck: Ck) -> None:
                       '(round / clamp / divide on the kernel floats): differential correspondence with Mesh.export and Tag / AbsoluteTag.export_binary / '
                       'parse_binary on every run; Fmt/BspDedup*.v (C11) for the find-or-insert table; WRITER_ITEM / READERS tables of '
                       'translate/c20_keytables.py (which function is a writer / reader, which class a str-keyed table stands for)')
+    ck.trusted.append('hand-written model Fmt/VmtBlocks.v (the recursion of vmt._write_block over the three regenerated templates, the blocks / '
+                      'Proxies part of Material.export; its token-level reader read_blocks stands for what Keyvalues parsing makes of the '
+                      'tokens): differential correspondence of vmt_file_b with Material.export on generated materials with nested blocks and '
+                      'proxies on every run; translate/c20_vmtblocks.py matches the control flow fail-closed')
+    ck.trusted.append('harness.c20_util.read_flex_block (the check\'s own reader of the flexanimations block of text scenes, written from the grammar '
+                      'Event.export_text / FlexAnimTrack.export_text emit; numbers by float(), curve names by CurveType.parse_text): it replaces the '
+                      'reader srctools does not have (known finding) for the writer\'s half of the property')
     ck.trusted.append('Coq kernel primitives PrimInt63.* and PrimFloat.* (63-bit integers, IEEE binary64): the quantisation theorems are computations on '
                       'them; Print Assumptions lists these primitives and no logical axiom (no FloatAxioms)')
     ck.trusted.append('KV/KvLex.v (tokenizer model of C01) for the quoted-field theorems; the escape table is tied to tokenizer.py by C01')
@@ -1780,9 +1877,11 @@ def run(ck: Ck) -> None:
     ok5 = ck.translate('ChoreoBin_gen', T.translate_choreo_bin)
     ok6 = ck.translate('KeyTables_gen', KT.translate_keytables)
     ok7 = ck.translate('QuantSites_gen', TQ.translate_quant)
+    ok8 = ck.translate('VmtBlocks_gen', TV.translate_vmt_blocks)
     built = ck.build(['Props/C20.vo'] + (['Gen/CmdSeqFmt_gen.vo'] if ok1 else []) + (['Gen/SmdTpl_gen.vo'] if ok2 else [])
                      + (['Gen/ScenesImg_gen.vo'] if ok3 else []) + (['Gen/TextFields_gen.vo'] if ok4 else [])
-                     + (['Gen/ChoreoBin_gen.vo'] if ok5 else []) + (['Gen/KeyTables_gen.vo'] if ok6 else []) + (['Gen/QuantSites_gen.vo'] if ok7 else []))
+                     + (['Gen/ChoreoBin_gen.vo'] if ok5 else []) + (['Gen/KeyTables_gen.vo'] if ok6 else []) + (['Gen/QuantSites_gen.vo'] if ok7 else [])
+                     + (['Gen/VmtBlocks_gen.vo'] if ok8 else []))
     lap('translate+build')
     finish_theorems = theorems_async(ck, 'Props/C20.v') if built else None
     # the correspondences are generators: they build their cases (Python, consuming ck.rng in a fixed order), yield the Coq jobs, and
@@ -1913,12 +2012,26 @@ def run(ck: Ck) -> None:
             'vcd_binary_quantisation_factor_same_on_both_sides': 'cq_factors_agree',
             'vcd_binary_quantisation_census_nonempty': 'cq_census_size_ok',
         })
+    if built and ok8:
+        # fully qualified: Fmt.VmtBlocks is loaded through the Gen module but not imported (its short names stay out of this group)
+        m_imps += ['SV.Gen.VmtBlocks_gen']
+        m_what.append('vmt.py _write_block / the blocks and proxies part of Material.export')
+        B, GB = 'SV.Fmt.VmtBlocks.', 'SV.Gen.VmtBlocks_gen.'
+        m_obs.update({
+            'vmt_block_templates_are_self_delimiting_items_and_every_indent_is_whitespace': f'{B}bcfg_okb {GB}vmt_bcfg',
+            'vmt_block_templates_are_quoted_name_brace_children_brace_and_quoted_name_quoted_value': f'{B}bcfg_shape_okb {GB}vmt_bcfg',
+            'vmt_block_fields_are_the_name_and_the_value_of_the_block_and_the_file_ends_with_the_closing_brace':
+                f'{GB}vmt_block_open_writes_the_name_of_the_block && {GB}vmt_block_leaf_writes_the_name_then_the_value && '
+                f'{GB}vmt_block_close_writes_no_value && {GB}vmt_file_ends_with_the_closing_brace_line',
+        })
     if m_obs:
         tie(ck.instance_obligations(list(dict.fromkeys(m_imps)), m_obs, name='tpl'), ' / '.join(m_what))
     lap('instance-smd+text+choreo-bin')
     if built and ok4:
         launch(corr_snd_stacks(ck))
         launch(corr_vmt_quote(ck))
+    if built and ok4 and ok8:
+        launch(corr_vmt_blocks(ck))
     if built and ok4:
         snd_line_census(ck)
     lap('gen-snd-stacks+vmt-quote+line-census')
@@ -1936,7 +2049,21 @@ def run(ck: Ck) -> None:
     lap('gen-image')
     if built and ok3:
         c = 'si_gen_cfg'
-        tie(ck.instance_obligations(IMP_IMGCFG, {
+        prop_imps: list[str] = []
+        prop_obs: dict[str, str] = {}
+        if all((ok1, ok2, ok4, ok5, ok6, ok7, ok8)):
+            # the single hypothesis of Props/C20.v c20_property, for the record of everything the translators regenerated in this run.
+            # Fully qualified names, and the extra modules imported BEFORE the ones of this group (the Gen modules define overlapping
+            # short names: the later import wins, so the expressions below keep their meaning).  It is the conjunction of booleans that
+            # are also discharged one by one: when it fails, one of those names the site and escalates its format family.
+            G = 'SV.Gen.'
+            rec = (f'SV.Fmt.C20Property.mkGen {G}CmdSeqFmt_gen.gen_cfg {G}ScenesImg_gen.si_gen_cfg {G}TextFields_gen.snd_v2_guard '
+                   f'{G}TextFields_gen.snd_stack_blocks {G}KeyTables_gen.kt_tables (Coq.Lists.List.map (@snd _ _) {G}QuantSites_gen.cq_sites) '
+                   f'{G}TextFields_gen.vmt_nq {G}TextFields_gen.snd_lines {G}TextFields_gen.cho_lines {G}SmdTpl_gen.smd_lines {G}VmtBlocks_gen.vmt_bcfg')
+            prop_imps = ['SV.Fmt.C20Property', 'SV.Gen.CmdSeqFmt_gen', 'SV.Gen.TextFields_gen', 'SV.Gen.KeyTables_gen', 'SV.Gen.QuantSites_gen',
+                         'SV.Gen.SmdTpl_gen', 'SV.Gen.VmtBlocks_gen']
+            prop_obs = {'c20_property_premises_hold_for_the_objects_regenerated_from_todays_source': f'SV.Fmt.C20Property.premises ({rec})'}
+        ires = ck.instance_obligations(prop_imps + IMP_IMGCFG, {
             'image_magic_is_VSIF_on_both_sides': f'magic_okb {c}',
             'image_header_is_4s_version_scenes_strings_offset': f'hdr_okb {c}',
             'image_header_writer_and_reader_agree': f'same_layout hsrc_eqb (ic_hdr_w {c}) (ic_hdr_r {c})',
@@ -1955,7 +2082,11 @@ def run(ck: Ck) -> None:
             'image_strings_same_encoding_on_both_sides': f'ic_same_encoding {c}',
             'image_reader_keys_entries_by_stored_checksum': f'ic_reader_keys_by_crc {c}',
             'image_cfg_ok': f'icfg_okb {c}',
-        }, name='imgcfg'), 'choreo.py save_scenes_image_sync / parse_scenes_image')
+            **prop_obs,
+        }, name='imgcfg')
+        tie({k: v for k, v in ires.items() if k not in prop_obs}, 'choreo.py save_scenes_image_sync / parse_scenes_image')
+        if not all(ires.values()) and not ck.tie_broken:
+            ck.tie_broken.append('the hypothesis of c20_property fails although every named obligation holds')
         lap('instance-image')
         launch(corr_image_pool(ck))
         lap('gen-image-pool')
@@ -2006,6 +2137,10 @@ def run(ck: Ck) -> None:
                 ck.explain('correspondence:sndscript-line-census')
             if pre == 'vmt:':
                 ck.explain('correspondence:vmt-quoting')
+                ck.explain('correspondence:vmt-blocks')
+                ck.explain('translate:VmtBlocks_gen')
+    if any(not k.endswith(':flex-animation-block') for k in keys):
+        ck.explain('instance:c20_property_premises')        # a conjunction: the conjunct that fails is explained above
     if any(k.startswith('scenes-image:') for k in keys):
         ck.explain('correspondence:scenes-image')
         ck.explain('instance:image_')
@@ -2017,7 +2152,8 @@ def replay(data: dict) -> int:
     if isinstance(r, dict) and 'spec' in r and r.get('format') in U.FORMATS:
         fmt = U.FORMATS[r['format']]
         res = U.observer_check(fmt, r['spec']) if r.get('oracle') == 'observer' else \
-            (U.brace_balance(fmt, r['spec']) if r.get('result', [''])[0] == 'unbalanced-braces' else U.roundtrip(fmt, r['spec']))
+            (U.brace_balance(fmt, r['spec']) if r.get('result', [''])[0] == 'unbalanced-braces' else
+             U.flex_oracle(fmt, r['spec']) if r.get('result', [''])[0] == 'flex-block' else U.roundtrip(fmt, r['spec']))
         print('spec   :', json.dumps(r['spec'])[:2000])
         try:
             out = fmt.write(fmt.build(r['spec']))
